@@ -22,6 +22,11 @@ Definition conc_verdict (k : conc_case) : nat * string :=
   let us := thread_runs k in
   if k_deadlock k then (1, "deadlock: every unfinished request waits for a lock another one holds") else
   if negb (existsb (coll_eqb (k_final k)) (k_seq k)) then (1, "a collection does not hold what the requests executed one after another put there") else
+  (* each request's own trace keeps the lock discipline (counting variant: finding F2b aside): a request that unlocks a lock it
+     does not hold takes away the mutual exclusion the other requests rely on; a Database access outside every lock is not
+     protected at all *)
+  if existsb (fun u => match run_monitor (lock_step_gen false) [] (u_trace u) with None => true | Some _ => false end) us
+  then (1, "a request unlocks a lock it does not hold or reaches the Database outside every lock: the mutual exclusion the other requests rely on is gone") else
   if String.eqb (k_kind k) "refused" then
     (* deliveries of one activity id among the three requests: its side effects are attempted at most once *)
     let ids := map (fun u => match r_body (u_req u) with BJson j => id_str j | BNotJson => "" end) us in
